@@ -26,6 +26,10 @@ X == [dims |-> <<2, 2>>, data |-> <<QI(1), QI(-2), Half, QI(3)>>]
 WVer(v) == [dims |-> <<Out>>, data |-> <<QI(3 * v + 1), QI(-v - 2)>>]
 BVer(v) == [dims |-> <<Out>>, data |-> <<Q(v, 2), QI(v - 1)>>]
 
+(* a slot may also hold the tensor OBJECT that used to sit in the other slot: encoded as -1 - (that slot's version) *)
+WTensor(w) == IF w >= 0 THEN WVer(w) ELSE BVer(-1 - w)
+BTensor(b) == IF b >= 0 THEN BVer(b) ELSE WVer(-1 - b)
+
 Vias == {"first", "last", "field"}
 
 Init == W = 0 /\ B = 0 /\ hist = <<>>
@@ -34,6 +38,9 @@ Do(a) == Len(hist) < MaxLen /\ hist' = Append(hist, a)
 GetWeights == Do(<<"weights">>) /\ UNCHANGED <<W, B>>
 SetW(v, via) == Do(<<"setW", v, via>>) /\ W' = v /\ UNCHANGED B
 SetB(v, via) == Do(<<"setB", v, via>>) /\ B' = v /\ UNCHANGED W
+(* the two parameter tensors change places / the bias tensor is also installed as the weight - through the pointers *)
+SwapWB(via) == Do(<<"swap", via>>) /\ W' = -1 - B /\ B' = -1 - W
+CopyBToW(via) == Do(<<"copyBW", via>>) /\ W' = -1 - B /\ UNCHANGED B
 Forward == Do(<<"forward">>) /\ UNCHANGED <<W, B>>
 (* a Forward with an input of rank 3 (the precondition is rank 2): rejected, nothing changes *)
 BadForward == Do(<<"badforward">>) /\ UNCHANGED <<W, B>>
@@ -43,16 +50,17 @@ ScribbleList == Do(<<"scribble">>) /\ UNCHANGED <<W, B>>
 Next == \/ GetWeights
         \/ \E v \in {1, 2}, via \in Vias : SetW(v, via)
         \/ \E via \in {"first", "last"} : SetB(1, via)
+        \/ \E via \in {"first", "last"} : SwapWB(via) \/ CopyBToW(via)
         \/ Forward
         \/ BadForward
         \/ ScribbleList
 Spec == Init /\ [][Next]_vars
 
 (* what the Forward that has just been appended must return *)
-Expected == FC(WVer(W), BVer(B), X)
+Expected == FC(WTensor(W), BTensor(B), X)
 IsForward == Len(hist') > Len(hist) /\ hist'[Len(hist')] = <<"forward">>
-Dump == IsForward => PrintT(ToJson([p |-> hist', y |-> EncSeq(FC(WVer(W'), BVer(B'), X).data), w |-> W', b |-> B']))
+Dump == IsForward => PrintT(ToJson([p |-> hist', y |-> EncSeq(FC(WTensor(W'), BTensor(B'), X).data), w |-> W', b |-> B']))
 
 (* the value only depends on the current cells, never on the history *)
-HistoryFree == [][IsForward => FC(WVer(W'), BVer(B'), X) = FC(WVer(W), BVer(B), X)]_vars
+HistoryFree == [][IsForward => FC(WTensor(W'), BTensor(B'), X) = FC(WTensor(W), BTensor(B), X)]_vars
 =============================================================================
